@@ -366,7 +366,7 @@ pub fn run(ctx: &Ctx) -> Vec<Eng> {
             a
         });
     }
-    let (hz, k) = if ctx.thorough { (48, 3) } else { (24, 2) };
+    let (hz, k) = if ctx.thorough { (48, 3) } else { (40, 2) };
     let mut e3 = Eng::new(
         "c11-deviations",
         "all histories of exactly H events differing from the default stream P(0.5 s, alternating states) in at most k positions, deviations {N, E1, P(2 s), set(c) x 9}; 3 initial kinds (exercises long accumulation of the single and double integrals)",
